@@ -18,7 +18,7 @@ def _const(draw, consts):
 @st.composite
 def programs(draw, max_preds=5, allow_evidence=True, allow_neg=True, allow_rec=True, allow_ads=True,
              allow_nonground_query=True, allow_neg_query=True, min_queries=1, allow_negcycle=False,
-             max_clauses=3, allow_shuffle=True, max_consts=3, prob_grid=None):
+             max_clauses=3, allow_shuffle=True, max_consts=3, prob_grid=None, neg_bias=False):
     grid = prob_grid or PROB_GRID
     nconst = draw(st.integers(1, max_consts))
     consts = CONSTS[:nconst]
@@ -46,7 +46,10 @@ def programs(draw, max_preds=5, allow_evidence=True, allow_neg=True, allow_rec=T
         else:
             neg_cands = [p for p in preds if p["stratum"] < head_stratum]
         for li in range(nlit):
-            neg = allow_neg and bool(neg_cands) and li > 0 and draw(st.integers(0, 3)) == 0
+            if neg_bias:
+                neg = allow_neg and bool(neg_cands) and draw(st.integers(0, 1)) == 0
+            else:
+                neg = allow_neg and bool(neg_cands) and li > 0 and draw(st.integers(0, 3)) == 0
             if neg:
                 p = draw(st.sampled_from(neg_cands))
                 args = []
@@ -372,15 +375,17 @@ def neg_under_active_cycle(prog):
 
 
 def cyclic_multihead_ad_with_complementary_body(prog):
-    """Class of finding F-ENG-3: an annotated disjunction with >= 2 heads whose body (a) has a positive literal
-    that depends on one of the AD's own head predicates and (b) contains a literal together with its negation."""
+    """Class of finding F-ENG-3: an annotated disjunction / probabilistic rule whose body (a) has a positive
+    literal that depends on one of the clause's own head predicates and (b) contains a positive and a negative
+    literal on the same predicate (a complementary pair, possibly only after grounding)."""
     g = pred_graph(prog)
     fwd = lambda v: [p for p, _ in g.get(v, ())]
     for s in prog:
-        if s[0] != "ad" or len(s[1]) < 2 or not s[2]:
+        if s[0] != "ad" or not s[2]:
             continue
-        lits = set((bool(l[0]), l[1], str(l[2])) for l in s[2])
-        if not any((not n, p, a) in lits for (n, p, a) in lits):
+        pos = set((l[1], len(l[2])) for l in s[2] if not l[0])
+        neg = set((l[1], len(l[2])) for l in s[2] if l[0])
+        if not (pos & neg):
             continue
         heads = set((a[0], len(a[1])) for _, a in s[1])
         for l in s[2]:
@@ -403,4 +408,28 @@ def shared_var_call(prog):
         elif s[0] == "query":
             if rep(s[1][1]):
                 return True
+    return False
+
+
+def pos_and_neg_recursion_same_scc(prog):
+    """Class of finding F-ENG-5: some recursive SCC of the predicate graph has both a positive and a negative
+    internal edge."""
+    g = pred_graph(prog)
+    nodes = set(g)
+    for d in g.values():
+        for (p, _) in d:
+            nodes.add(p)
+    comps = sccs(sorted(nodes), lambda v: sorted(set(p for p, _ in g.get(v, ()))))
+    for c in comps:
+        cs = set(c)
+        pos = neg = False
+        for v in c:
+            for p, n in g.get(v, ()):
+                if p in cs:
+                    if n:
+                        neg = True
+                    else:
+                        pos = True
+        if pos and neg:
+            return True
     return False
